@@ -1069,6 +1069,12 @@ func (p *Parser) parseIf() ast.Node {
 			p.nextToken() // move to the "if"
 			nestedIfToken := p.curToken
 			nestedIf := p.parseIf()
+			if nestedIf == nil {
+				// The nested if could not be parsed, e.g. the input ends after
+				// "else if". Do not build a block around a nil node.
+				p.setTokenError(nestedIfToken, "invalid else if expression")
+				return nil
+			}
 			alternative := ast.NewBlock(nestedIfToken, []ast.Node{nestedIf})
 			return ast.NewIf(ifToken, cond, consequence, alternative)
 		}
